@@ -35,16 +35,15 @@ set_option linter.unusedVariables false
 namespace Ubx.Py
 open Ubx Ubx.Gen.Code
 
-variable (c : WCtx) (cls id : Bytes) (mode : Nat)
+variable (c : WCtx) (cls id : Bytes) (mode : Nat) (H : Host AO ASt)
 
-theorem wh_call : (walkHost c cls id mode).call = aCall c := rfl
-theorem wh_mcall : (walkHost c cls id mode).mcall = aMcall c := rfl
-theorem wh_attr : (walkHost c cls id mode).attr = aAttr c cls id mode := rfl
-theorem wh_setattr : (walkHost c cls id mode).setattr = aSetattr := rfl
-theorem wh_index : (walkHost c cls id mode).index = aIndex := rfl
-theorem wh_contains : (walkHost c cls id mode).contains = aContains c := rfl
-theorem wh_glob : (walkHost c cls id mode).glob = aGlob := rfl
-theorem wh_eq : (walkHost c cls id mode).eqHost = aEq := rfl
+
+set_option hygiene false in
+/-- the host's fields, as rewrite rules -/
+macro "whs" : tactic => `(tactic| (
+  have wh_call := hH.call; have wh_attr := hH.attr; have wh_setattr := hH.setattr; have wh_index := hH.index
+  have wh_contains := hH.contains; have wh_glob := hH.glob; have wh_eq := hH.eqHost
+  have wh_mkw := hH.mcall_kw; have wh_mdict := hH.mcall_dict; have wh_mbf := hH.mcall_bitfield; have wh_mcfg := hH.mcall_cfgval))
 
 /-- the type-string constants the host stands in for are the working tree's -/
 example : (globLookup Ubx.Gen.Code.globals 0x5831 : Option (V AO)) = some (.str 0x58303031) := rfl
@@ -79,10 +78,11 @@ theorem cnr_frame (vars : List (Name × V AO)) (v1 v2 v3 v4 : V AO) (x : Name) (
   rw [getVar_setVar_ne _ _ _ _ (Ne.symm h1), getVar_setVar_ne _ _ _ _ (Ne.symm h3), getVar_setVar_ne _ _ _ _ (Ne.symm h2),
     getVar_setVar_ne _ _ _ _ (Ne.symm h4)]
 
-theorem cnr_body (F : Nat) (it : Item) (acc : Int) (vars : List (Name × V AO)) (st : ASt)
+theorem cnr_body (hH : WalkLike c cls id mode H) (F : Nat) (it : Item) (acc : Int) (vars : List (Name × V AO)) (st : ASt)
     (gL : getVar vars 0x6c656e67726f7570 = some (.int acc)) :
     CnrPost (memberSize it) acc vars st
-      (forBody (walkHost c cls id mode) F 0x5f5f6974656d5f5f cnrBody (.tuple [.str (Item.key it), defV it]) ⟨vars, st⟩) := by
+      (forBody H F 0x5f5f6974656d5f5f cnrBody (.tuple [.str (Item.key it), defV it]) ⟨vars, st⟩) := by
+  whs
   simp only [forBody, cnrBody, cnrLoop, fn_UBXMessage__calc_num_repeats]
   have fr : ∀ (vs : List (Name × V AO)) (x y : Name) (v : V AO), ¬ x = y → getVar (setVar vs y v) x = getVar vs x :=
     fun vs x y v h => getVar_setVar_ne vs y x v (fun e => h e.symm)
@@ -141,14 +141,15 @@ theorem cnr_body (F : Nat) (it : Item) (acc : Int) (vars : List (Name × V AO)) 
 
 def encItem (i : Item) : V AO := .tuple [.str (Item.key i), defV i]
 
-theorem cnr_loop (F : Nat) (items : List Item) : ∀ (acc : Int) (vars : List (Name × V AO)) (st : ASt),
+theorem cnr_loop (hH : WalkLike c cls id mode H) (F : Nat) (items : List Item) : ∀ (acc : Int) (vars : List (Name × V AO)) (st : ASt),
     getVar vars 0x6c656e67726f7570 = some (.int acc) →
     (match sumSizes items acc with
-     | .ok s => ∃ vars', forLoop (forBody (walkHost c cls id mode) F 0x5f5f6974656d5f5f cnrBody) (items.map encItem) ⟨vars, st⟩
+     | .ok s => ∃ vars', forLoop (forBody H F 0x5f5f6974656d5f5f cnrBody) (items.map encItem) ⟨vars, st⟩
           = (.ok .next, ⟨vars', st⟩) ∧ getVar vars' 0x6c656e67726f7570 = some (.int s)
           ∧ ∀ x, x ≠ 0x6c656e67726f7570 → x ≠ 0x5f → x ≠ 0x76616c → x ≠ 0x5f5f6974656d5f5f → getVar vars' x = getVar vars x
-     | .error e => (forLoop (forBody (walkHost c cls id mode) F 0x5f5f6974656d5f5f cnrBody) (items.map encItem) ⟨vars, st⟩).1
+     | .error e => (forLoop (forBody H F 0x5f5f6974656d5f5f cnrBody) (items.map encItem) ⟨vars, st⟩).1
           = .error (.exc (excName e) 0)) := by
+  whs
   induction items with
   | nil =>
     intro acc vars st gL
@@ -156,10 +157,10 @@ theorem cnr_loop (F : Nat) (items : List Item) : ∀ (acc : Int) (vars : List (N
     exact ⟨vars, rfl, gL, fun _ _ _ _ _ => rfl⟩
   | cons it rest ih =>
     intro acc vars st gL
-    have hb := cnr_body c cls id mode F it acc vars st gL
+    have hb := cnr_body c cls id mode H hH F it acc vars st gL
     rw [List.map_cons, forLoop, sumSizes]
     simp only [encItem] at hb ⊢
-    generalize forBody (walkHost c cls id mode) F 0x5f5f6974656d5f5f cnrBody (.tuple [.str (Item.key it), defV it]) ⟨vars, st⟩ = r0 at hb ⊢
+    generalize forBody H F 0x5f5f6974656d5f5f cnrBody (.tuple [.str (Item.key it), defV it]) ⟨vars, st⟩ = r0 at hb ⊢
     obtain ⟨r, ⟨vars1, st1⟩⟩ := r0
     cases hm : memberSize it with
     | error e =>
@@ -182,18 +183,19 @@ theorem cnr_loop (F : Nat) (items : List Item) : ∀ (acc : Int) (vars : List (N
         exact ⟨vars', e1, e2, fun x a b c d => by rw [e3 x a b c d, h4 x a b c d]⟩
 
 /-- `_calc_num_repeats`, as written, is the model's `calcNumRepeats` -/
-theorem calc_num_repeats_eq (F : Nat) (items : List Item) (payload : Bytes) (off : Nat) (st : ASt) :
+theorem calc_num_repeats_eq (hH : WalkLike c cls id mode H) (F : Nat) (items : List Item) (payload : Bytes) (off : Nat) (st : ASt) :
     (match calcNumRepeats items payload off with
-     | .ok k => runFn (walkHost c cls id mode) F fn_UBXMessage__calc_num_repeats
+     | .ok k => runFn H F fn_UBXMessage__calc_num_repeats
           [.host .self, .host (.dict items), .bytes payload, .int off, .int 0] st = (.ok (.int k), st)
-     | .error e => (runFn (walkHost c cls id mode) F fn_UBXMessage__calc_num_repeats
+     | .error e => (runFn H F fn_UBXMessage__calc_num_repeats
           [.host .self, .host (.dict items), .bytes payload, .int off, .int 0] st).1 = .error (.exc (excName e) 0)) := by
+  whs
   simp only [runFn, fn_UBXMessage__calc_num_repeats, List.zip_cons_cons, List.zip_nil_right]
   pystep
   pystep
   rw [execB_cons, execS_for]
-  pysimp [wh_mcall, aMcall, builtinMethod]
-  have hl := cnr_loop c cls id mode F items 0
+  pysimp [wh_mkw, wh_mdict, wh_mbf, wh_mcfg, aMcall, builtinMethod]
+  have hl := cnr_loop c cls id mode H hH F items 0
     [(0x73656c66, .host .self), (0x61747464, .host (.dict items)), (0x7061796c6f6164, .bytes payload), (0x6f6666736574, .int off),
      (0x6f6666736574656e64, .int 0), (0x6c656e7061796c6f6164, .int ((payload.length : Int) - off - 0)), (0x6c656e67726f7570, .int 0)] st (by pysimp)
   unfold calcNumRepeats
@@ -241,14 +243,37 @@ def ItemShape : Item → Prop
   | .group _ (.named a) _ => a ≠ sNone      -- the string "None" as a count means "variable by size"
   | _ => True
 
-theorem set_attribute_eq (F : Nat) (items : List Item) (key : Name) (it : Item) (hit : itemAt items key = some it)
-    (hsh : ItemShape it) (off : Nat) (idx : List Nat) (st : ASt) :
-    (match wItem c idx it ⟨off, st.payload, st.env⟩ with
-     | .ok s => runFn (walkHost c cls id mode) F fn_UBXMessage__set_attribute
-          [.host .self, .str key, .host (.dict items), .int off, idxT idx, .host .kwargs] st
-          = (.ok (.tuple [.int s.off, idxT idx]), ⟨s.payload, s.env⟩)
-     | .error e => (runFn (walkHost c cls id mode) F fn_UBXMessage__set_attribute
-          [.host .self, .str key, .host (.dict items), .int off, idxT idx, .host .kwargs] st).1 = .error (.exc (excName e) 0)) := by
+/-- what a walker method called on `self` hands back, as far as its caller looks at it: `(offset, index)` and the message
+    after a normal return, the exception class otherwise -/
+def SpecW (idx : List Nat) (r : X AO (V AO) × ASt) (res : R WState) : Prop :=
+  match res with
+  | .ok s => r = (.ok (.tuple [.int s.off, idxT idx]), ⟨s.payload, s.env⟩)
+  | .error e => r.1 = .error (.exc (excName e) 0)
+
+/-- … for `_set_attribute_single`, which hands back the offset alone -/
+def SpecS (r : X AO (V AO) × ASt) (res : R WState) : Prop :=
+  match res with
+  | .ok s => r = (.ok (.int s.off), ⟨s.payload, s.env⟩)
+  | .error e => r.1 = .error (.exc (excName e) 0)
+
+/-- the one call `_set_attribute` makes for this entry behaves as its model function -/
+def CalleeOK (c : WCtx) (H : Host AO ASt) (idx : List Nat) (off : Nat) (st : ASt) : Item → Prop
+  | .attr n ty sc =>
+    SpecS (H.mcall (.host .self) 0x5f7365745f6174747269627574655f73696e676c65
+        [.str n, defV (.attr n ty sc), .int off, idxT idx, .host .kwargs] [] st) (wSingle c idx n ty sc ⟨off, st.payload, st.env⟩)
+  | .bits n ty _ =>
+    c.parsebf = false →
+    SpecS (H.mcall (.host .self) 0x5f7365745f6174747269627574655f73696e676c65
+        [.str n, .host (.ty ty), .int off, idxT idx, .host .kwargs] [] st) (wSingle c idx n ty .one ⟨off, st.payload, st.env⟩)
+  | .group _ cnt its =>
+    SpecW idx (H.mcall (.host .self) 0x5f7365745f6174747269627574655f67726f7570
+        [.tuple [cntV cnt, .host (.dict its)], .int off, idxT idx, .host .kwargs] [] st) (wGroup c idx cnt its ⟨off, st.payload, st.env⟩)
+
+theorem set_attribute_eq (hH : WalkLike c cls id mode H) (F : Nat) (items : List Item) (key : Name) (it : Item) (hit : itemAt items key = some it)
+    (hsh : ItemShape it) (off : Nat) (idx : List Nat) (st : ASt) (hcall : CalleeOK c H idx off st it) :
+    SpecW idx (runFn H F fn_UBXMessage__set_attribute
+          [.host .self, .str key, .host (.dict items), .int off, idxT idx, .host .kwargs] st) (wItem c idx it ⟨off, st.payload, st.env⟩) := by
+  whs
   have hk : Item.key it = key := by
     have := List.find?_some hit
     simpa using this
@@ -258,102 +283,134 @@ theorem set_attribute_eq (F : Nat) (items : List Item) (key : Name) (it : Item) 
   | attr n ty sc =>
     simp only [Item.key] at hk
     subst hk
+    simp only [CalleeOK] at hcall
     cases sc with
     | one =>
-      simp only [defV, wItem]
+      simp only [defV, wItem] at hcall ⊢
       pystep [wh_call, aCall]
-      pysimp [wh_mcall, aMcall, idxT, decIdx_map, Int.natCast_nonneg, Int.toNat_natCast]
-      cases wSingle c idx n ty .one ⟨off, st.payload, st.env⟩ with
-      | error e => simp [singleRet]
+      simp only [SpecW, SpecS] at hcall ⊢
+      cases hws : wSingle c idx n ty .one ⟨off, st.payload, st.env⟩ with
+      | error e =>
+        rw [hws] at hcall
+        simp only at hcall
+        pysimp [hcall]
       | ok s =>
-        simp only [singleRet]
-        pysimp
+        rw [hws] at hcall
+        simp only at hcall ⊢
+        pysimp [hcall]
     | int k =>
-      simp only [defV, wItem]
+      simp only [defV, wItem] at hcall ⊢
       pystep [wh_call, aCall]
-      pysimp [wh_mcall, aMcall, idxT, decIdx_map, Int.natCast_nonneg, Int.toNat_natCast]
-      cases wSingle c idx n ty (.int k) ⟨off, st.payload, st.env⟩ with
-      | error e => simp [singleRet]
+      simp only [SpecW, SpecS] at hcall ⊢
+      cases hws : wSingle c idx n ty (.int k) ⟨off, st.payload, st.env⟩ with
+      | error e =>
+        rw [hws] at hcall
+        simp only at hcall
+        pysimp [hcall]
       | ok s =>
-        simp only [singleRet]
-        pysimp
+        rw [hws] at hcall
+        simp only at hcall ⊢
+        pysimp [hcall]
     | flt b =>
-      simp only [defV, wItem]
+      simp only [defV, wItem] at hcall ⊢
       pystep [wh_call, aCall]
-      pysimp [wh_mcall, aMcall, idxT, decIdx_map, Int.natCast_nonneg, Int.toNat_natCast]
-      cases wSingle c idx n ty (.flt b) ⟨off, st.payload, st.env⟩ with
-      | error e => simp [singleRet]
+      simp only [SpecW, SpecS] at hcall ⊢
+      cases hws : wSingle c idx n ty (.flt b) ⟨off, st.payload, st.env⟩ with
+      | error e =>
+        rw [hws] at hcall
+        simp only at hcall
+        pysimp [hcall]
       | ok s =>
-        simp only [singleRet]
-        pysimp
+        rw [hws] at hcall
+        simp only at hcall ⊢
+        pysimp [hcall]
   | bits n ty fl =>
     simp only [Item.key] at hk
     subst hk
+    simp only [CalleeOK] at hcall
     simp only [defV, wItem]
     have h6 : ty = .t cX 1 ∨ ty = .t cX 2 ∨ ty = .t cX 4 ∨ ty = .t cX 6 ∨ ty = .t cX 8 ∨ ty = .t cX 24 := by
       have h := hsh
       simp [ItemShape, isXTy] at h
       rcases h with ((((h | h) | h) | h) | h) | h <;> simp [h]
-    have hmem : memTuple (walkHost c cls id mode) (V.host (AO.ty ty))
+    have hmem : memTuple H (V.host (AO.ty ty))
         [.host (.ty (.t cX 1)), .host (.ty (.t cX 2)), .host (.ty (.t cX 4)), .host (.ty (.t cX 6)), .host (.ty (.t cX 8)),
          .host (.ty (.t cX 24))] = some true := by
       rcases h6 with rfl | rfl | rfl | rfl | rfl | rfl <;> simp only [memTuple, pyEq, wh_eq, aEq, cX] <;> rfl
-    pystep [wh_call, aCall, bindT, wh_glob, aGlob, hmem, wh_attr, aAttr]
     simp only [memTuple, pyEq] at hmem
+    pystep [wh_call, aCall, bindT, wh_glob, aGlob, hmem, wh_attr, aAttr]
     pystep [wh_call, aCall, bindT, wh_glob, aGlob, hmem, wh_attr, aAttr]
     cases hpb : c.parsebf
     · simp only [Bool.false_eq_true, ↓reduceIte]
-      pysimp [wh_mcall, aMcall, idxT, decIdx_map, Int.natCast_nonneg, Int.toNat_natCast]
-      cases wSingle c idx n ty .one ⟨off, st.payload, st.env⟩ with
-      | error e => simp [singleRet]
+      pysimp
+      have hcall := hcall hpb
+      simp only [SpecW, SpecS] at hcall ⊢
+      cases hws : wSingle c idx n ty .one ⟨off, st.payload, st.env⟩ with
+      | error e =>
+        rw [hws] at hcall
+        simp only at hcall
+        pysimp [hcall]
       | ok s =>
-        simp only [singleRet]
-        pysimp
+        rw [hws] at hcall
+        simp only at hcall ⊢
+        pysimp [hcall]
     · simp only [↓reduceIte]
-      pysimp [wh_mcall, aMcall, idxT, decIdx_map, Int.natCast_nonneg, Int.toNat_natCast]
+      pysimp [wh_mbf, aMcall, idxT, decIdx_map, Int.natCast_nonneg, Int.toNat_natCast]
       cases wBits c idx ty fl ⟨off, st.payload, st.env⟩ with
-      | error e => simp [walkRet]
+      | error e => simp [walkRet, SpecW]
       | ok s =>
-        simp only [walkRet]
+        simp only [walkRet, SpecW]
         pysimp [bindT, idxT]
   | group n cnt its =>
     simp only [Item.key] at hk
     subst hk
+    simp only [CalleeOK] at hcall
     simp only [defV]
     have hw : ∀ s, wGroup c idx cnt its s = wItem c idx (.group n cnt its) s := by
       intro s; simp only [wGroup, wItem]
     cases cnt with
     | fixed k =>
-      simp only [cntV]
+      simp only [cntV] at hcall ⊢
       pystep [wh_call, aCall, bindT, wh_glob, aGlob, wh_eq, aEq, wh_attr, aAttr]
       pystep [wh_call, aCall, bindT, wh_glob, aGlob, wh_eq, aEq, wh_attr, aAttr]
-      pysimp [wh_mcall, aMcall, idxT, decIdx_map, Int.natCast_nonneg, Int.toNat_natCast, countOf, hw]
-      cases wItem c idx (.group n (.fixed k) its) ⟨off, st.payload, st.env⟩ with
-      | error e => simp [walkRet]
+      simp only [SpecW, hw] at hcall ⊢
+      cases hws : wItem c idx (.group n (.fixed k) its) ⟨off, st.payload, st.env⟩ with
+      | error e =>
+        rw [hws] at hcall
+        simp only at hcall
+        pysimp [hcall]
       | ok s =>
-        simp only [walkRet]
-        pysimp [bindT, idxT]
+        rw [hws] at hcall
+        simp only at hcall ⊢
+        pysimp [hcall, bindT]
     | var =>
-      simp only [cntV]
+      simp only [cntV] at hcall ⊢
       pystep [wh_call, aCall, bindT, wh_glob, aGlob, wh_eq, aEq, wh_attr, aAttr]
       pystep [wh_call, aCall, bindT, wh_glob, aGlob, wh_eq, aEq, wh_attr, aAttr]
-      pysimp [wh_mcall, aMcall, idxT, decIdx_map, Int.natCast_nonneg, Int.toNat_natCast, countOf, hw]
-      cases wItem c idx (.group n .var its) ⟨off, st.payload, st.env⟩ with
-      | error e => simp [walkRet]
+      simp only [SpecW, hw] at hcall ⊢
+      cases hws : wItem c idx (.group n .var its) ⟨off, st.payload, st.env⟩ with
+      | error e =>
+        rw [hws] at hcall
+        simp only at hcall
+        pysimp [hcall]
       | ok s =>
-        simp only [walkRet]
-        pysimp [bindT, idxT]
+        rw [hws] at hcall
+        simp only at hcall ⊢
+        pysimp [hcall, bindT]
     | named a =>
-      have ha : a ≠ sNone := hsh
-      simp only [cntV]
+      simp only [cntV] at hcall ⊢
       pystep [wh_call, aCall, bindT, wh_glob, aGlob, wh_eq, aEq, wh_attr, aAttr]
       pystep [wh_call, aCall, bindT, wh_glob, aGlob, wh_eq, aEq, wh_attr, aAttr]
-      pysimp [wh_mcall, aMcall, idxT, decIdx_map, Int.natCast_nonneg, Int.toNat_natCast, countOf, hw, ha]
-      cases wItem c idx (.group n (.named a) its) ⟨off, st.payload, st.env⟩ with
-      | error e => simp [walkRet]
+      simp only [SpecW, hw] at hcall ⊢
+      cases hws : wItem c idx (.group n (.named a) its) ⟨off, st.payload, st.env⟩ with
+      | error e =>
+        rw [hws] at hcall
+        simp only at hcall
+        pysimp [hcall]
       | ok s =>
-        simp only [walkRet]
-        pysimp [bindT, idxT]
+        rw [hws] at hcall
+        simp only at hcall ⊢
+        pysimp [hcall, bindT]
 
 /-! ### `_set_attribute_group` -/
 
@@ -385,37 +442,47 @@ def InnerPost (res : R WState) (idx' : List Nat) (vars : List (Name × V AO)) (s
       ∧ ∀ x, x ≠ 0x6f6666736574 → x ≠ 0x696e646578 → x ≠ 0x6b657931 → getVar r.2.vars x = getVar vars x
   | .error e => r.1 = .error (.exc (excName e) 0)
 
-theorem grp_inner_body (F : Nat) (its : List Item) (it : Item) (hit : itemAt its (Item.key it) = some it)
+theorem grp_inner_body (hH : WalkLike c cls id mode H) (F : Nat) (its : List Item) (it : Item)
     (off : Nat) (idx' : List Nat) (vars : List (Name × V AO)) (st : ASt)
+    (hcall : SpecW idx' (H.mcall (.host .self) 0x5f7365745f617474726962757465 [.str (Item.key it), .host (.dict its), .int off, idxT idx', .host .kwargs] [] st)
+      (wItem c idx' it ⟨off, st.payload, st.env⟩))
     (gSelf : getVar vars 0x73656c66 = some (.host .self)) (gD : getVar vars 0x6764696374 = some (.host (.dict its)))
     (gOff : getVar vars 0x6f6666736574 = some (.int off)) (gIdx : getVar vars 0x696e646578 = some (idxT idx'))
     (gKw : getVar vars 0x6b7761726773 = some (.host .kwargs)) :
     InnerPost (wItem c idx' it ⟨off, st.payload, st.env⟩) idx' vars st
-      (forBody (walkHost c cls id mode) F 0x6b657931 grpInnerBody (.str (Item.key it)) ⟨vars, st⟩) := by
+      (forBody H F 0x6b657931 grpInnerBody (.str (Item.key it)) ⟨vars, st⟩) := by
+  whs
   simp only [forBody, grpInnerBody, grpInner, grpOuterBody, grpOuter, grpElse, grpIf, fn_UBXMessage__set_attribute_group]
   have fr : ∀ (vs : List (Name × V AO)) (x y : Name) (v : V AO), ¬ x = y → getVar (setVar vs y v) x = getVar vs x :=
     fun vs x y v h => getVar_setVar_ne vs y x v (fun e => h e.symm)
-  pysimp [gSelf, gD, gOff, gIdx, gKw, wh_mcall, aMcall, hit, idxT, decIdx_map, Int.natCast_nonneg, Int.toNat_natCast, builtinMethod]
-  cases wItem c idx' it ⟨off, st.payload, st.env⟩ with
-  | error e => simp [walkRet, InnerPost]
+  simp only [SpecW] at hcall
+  cases hws : wItem c idx' it ⟨off, st.payload, st.env⟩ with
+  | error e =>
+    rw [hws] at hcall
+    simp only at hcall
+    pysimp [gSelf, gD, gOff, gIdx, gKw, hcall, InnerPost]
   | ok s =>
-    simp only [walkRet, InnerPost]
-    pysimp [bindT, idxT]
+    rw [hws] at hcall
+    simp only at hcall
+    simp only [InnerPost]
+    pysimp [gSelf, gD, gOff, gIdx, gKw, hcall, bindT]
     intro x h1 h2 h3
     rw [fr _ _ _ _ h2, fr _ _ _ _ h1, fr _ _ _ _ h3]
 
-theorem grp_inner_loop (F : Nat) (its : List Item) (idx' : List Nat) : ∀ (l : List Item),
-    (∀ it ∈ l, itemAt its (Item.key it) = some it) → ∀ (off : Nat) (vars : List (Name × V AO)) (st : ASt),
+theorem grp_inner_loop (hH : WalkLike c cls id mode H) (F : Nat) (its : List Item) (idx' : List Nat) : ∀ (l : List Item),
+    (∀ it ∈ l, ∀ (off : Nat) (st : ASt), SpecW idx' (H.mcall (.host .self) 0x5f7365745f617474726962757465 [.str (Item.key it), .host (.dict its), .int off, idxT idx', .host .kwargs] [] st)
+      (wItem c idx' it ⟨off, st.payload, st.env⟩)) → ∀ (off : Nat) (vars : List (Name × V AO)) (st : ASt),
     getVar vars 0x73656c66 = some (.host .self) → getVar vars 0x6764696374 = some (.host (.dict its)) →
     getVar vars 0x6f6666736574 = some (.int off) → getVar vars 0x696e646578 = some (idxT idx') →
     getVar vars 0x6b7761726773 = some (.host .kwargs) →
     (match wItems c idx' l ⟨off, st.payload, st.env⟩ with
-     | .ok s => ∃ vars', forLoop (forBody (walkHost c cls id mode) F 0x6b657931 grpInnerBody) (l.map (fun i => V.str (Item.key i))) ⟨vars, st⟩
+     | .ok s => ∃ vars', forLoop (forBody H F 0x6b657931 grpInnerBody) (l.map (fun i => V.str (Item.key i))) ⟨vars, st⟩
           = (.ok .next, ⟨vars', ⟨s.payload, s.env⟩⟩) ∧ getVar vars' 0x6f6666736574 = some (.int s.off)
           ∧ getVar vars' 0x696e646578 = some (idxT idx')
           ∧ ∀ x, x ≠ 0x6f6666736574 → x ≠ 0x696e646578 → x ≠ 0x6b657931 → getVar vars' x = getVar vars x
-     | .error e => (forLoop (forBody (walkHost c cls id mode) F 0x6b657931 grpInnerBody) (l.map (fun i => V.str (Item.key i))) ⟨vars, st⟩).1
+     | .error e => (forLoop (forBody H F 0x6b657931 grpInnerBody) (l.map (fun i => V.str (Item.key i))) ⟨vars, st⟩).1
           = .error (.exc (excName e) 0)) := by
+  whs
   intro l
   induction l with
   | nil =>
@@ -424,9 +491,9 @@ theorem grp_inner_loop (F : Nat) (its : List Item) (idx' : List Nat) : ∀ (l : 
     exact ⟨vars, rfl, gOff, gIdx, fun _ _ _ _ => rfl⟩
   | cons it rest ih =>
     intro hl off vars st gSelf gD gOff gIdx gKw
-    have hb := grp_inner_body c cls id mode F its it (hl it (by simp)) off idx' vars st gSelf gD gOff gIdx gKw
+    have hb := grp_inner_body c cls id mode H hH F its it off idx' vars st (hl it (by simp) off st) gSelf gD gOff gIdx gKw
     rw [List.map_cons, forLoop, wItems]
-    generalize forBody (walkHost c cls id mode) F 0x6b657931 grpInnerBody (.str (Item.key it)) ⟨vars, st⟩ = r0 at hb ⊢
+    generalize forBody H F 0x6b657931 grpInnerBody (.str (Item.key it)) ⟨vars, st⟩ = r0 at hb ⊢
     obtain ⟨r, ⟨vars1, st1⟩⟩ := r0
     cases hm : wItem c idx' it ⟨off, st.payload, st.env⟩ with
     | error e =>
@@ -451,6 +518,12 @@ theorem grp_inner_loop (F : Nat) (its : List Item) (idx' : List Nat) : ∀ (l : 
         obtain ⟨vars', e1, e2, e3, e4⟩ := this
         exact ⟨vars', e1, e2, e3, fun x a b d => by rw [e4 x a b d, h5 x a b d]⟩
 
+/-- every member of the group, reached through `self._set_attribute`, behaves as `wItem` — whatever the repetition, offset and message state -/
+def ItemsOK (c : WCtx) (H : Host AO ASt) (idx : List Nat) (its : List Item) : Prop :=
+  ∀ (a : Nat), ∀ it ∈ its, ∀ (off : Nat) (st : ASt),
+    SpecW (idx ++ [a + 1]) (H.mcall (.host .self) 0x5f7365745f617474726962757465 [.str (Item.key it), .host (.dict its), .int off, idxT (idx ++ [a + 1]), .host .kwargs] [] st)
+      (wItem c (idx ++ [a + 1]) it ⟨off, st.payload, st.env⟩)
+
 def OuterPost (res : R WState) (idx' : List Nat) (vars : List (Name × V AO)) (r : X AO (Flow AO) × St AO ASt) : Prop :=
   match res with
   | .ok s => r.1 = .ok .next ∧ r.2.h = ⟨s.payload, s.env⟩ ∧ getVar r.2.vars 0x6f6666736574 = some (.int s.off)
@@ -458,22 +531,23 @@ def OuterPost (res : R WState) (idx' : List Nat) (vars : List (Name × V AO)) (r
       ∧ ∀ x, x ≠ 0x6f6666736574 → x ≠ 0x696e646578 → x ≠ 0x6b657931 → x ≠ 0x69 → getVar r.2.vars x = getVar vars x
   | .error e => r.1 = .error (.exc (excName e) 0)
 
-theorem grp_outer_body (F : Nat) (its : List Item) (hks : ∀ it ∈ its, itemAt its (Item.key it) = some it)
-    (idx : List Nat) (jv : V AO) (a off : Nat) (vars : List (Name × V AO)) (st : ASt)
+theorem grp_outer_body (hH : WalkLike c cls id mode H) (F : Nat) (its : List Item) (idx : List Nat) (hks : ItemsOK c H idx its)
+    (jv : V AO) (a off : Nat) (vars : List (Name × V AO)) (st : ASt)
     (gSelf : getVar vars 0x73656c66 = some (.host .self)) (gD : getVar vars 0x6764696374 = some (.host (.dict its)))
     (gOff : getVar vars 0x6f6666736574 = some (.int off))
     (gIdx : getVar vars 0x696e646578 = some (.tuple (idx.map (fun (i : Nat) => (V.int (i : Int) : V AO)) ++ [jv])))
     (gKw : getVar vars 0x6b7761726773 = some (.host .kwargs)) :
     OuterPost (wItems c (idx ++ [a + 1]) its ⟨off, st.payload, st.env⟩) (idx ++ [a + 1]) vars
-      (forBody (walkHost c cls id mode) F 0x69 grpOuterBody (.int a) ⟨vars, st⟩) := by
+      (forBody H F 0x69 grpOuterBody (.int a) ⟨vars, st⟩) := by
+  whs
   simp only [forBody, grpOuterBody, grpOuter, grpElse, grpIf, fn_UBXMessage__set_attribute_group]
   have fr : ∀ (vs : List (Name × V AO)) (x y : Name) (v : V AO), ¬ x = y → getVar (setVar vs y v) x = getVar vs x :=
     fun vs x y v h => getVar_setVar_ne vs y x v (fun e => h e.symm)
   have hne : (List.map (fun (i : Nat) => (V.int (i : Int) : V AO)) idx ++ [jv]).isEmpty = false := by simp
   have hidx' : (V.tuple (List.map (fun (i : Nat) => (V.int (i : Int) : V AO)) idx ++ [V.int ((a : Int) + 1)]) : V AO) = idxT (idx ++ [a + 1]) := by
     simp [idxT]
-  pystep [gIdx, List.dropLast_concat, hne, Bool.false_eq_true, gD, wh_mcall, aMcall, hidx']
-  have hl := grp_inner_loop c cls id mode F its (idx ++ [a + 1]) its hks off
+  pystep [gIdx, List.dropLast_concat, hne, Bool.false_eq_true, gD, wh_mkw, wh_mdict, wh_mbf, wh_mcfg, aMcall, hidx']
+  have hl := grp_inner_loop c cls id mode H hH F its (idx ++ [a + 1]) its (hks a) off
     (setVar (setVar vars 0x69 (.int a)) 0x696e646578 (idxT (idx ++ [a + 1]))) st
     (by rw [fr _ _ _ _ (by decide), fr _ _ _ _ (by decide)]; exact gSelf)
     (by rw [fr _ _ _ _ (by decide), fr _ _ _ _ (by decide)]; exact gD)
@@ -502,19 +576,20 @@ theorem grp_outer_body (F : Nat) (its : List Item) (hks : ∀ it ∈ its, itemAt
 
 def intV (i : Nat) : V AO := .int (i : Int)
 
-theorem grp_outer_loop (F : Nat) (its : List Item) (hks : ∀ it ∈ its, itemAt its (Item.key it) = some it) (idx : List Nat) :
+theorem grp_outer_loop (hH : WalkLike c cls id mode H) (F : Nat) (its : List Item) (idx : List Nat) (hks : ItemsOK c H idx its) :
     ∀ (k a off : Nat) (jv : V AO) (vars : List (Name × V AO)) (st : ASt),
     getVar vars 0x73656c66 = some (.host .self) → getVar vars 0x6764696374 = some (.host (.dict its)) →
     getVar vars 0x6f6666736574 = some (.int off) →
     getVar vars 0x696e646578 = some (.tuple (idx.map (fun (i : Nat) => (V.int (i : Int) : V AO)) ++ [jv])) →
     getVar vars 0x6b7761726773 = some (.host .kwargs) →
     (match repeatN (fun i s => wItems c (idx ++ [i]) its s) k (a + 1) ⟨off, st.payload, st.env⟩ with
-     | .ok s => ∃ vars' jv', forLoop (forBody (walkHost c cls id mode) F 0x69 grpOuterBody) ((List.range' a k).map intV) ⟨vars, st⟩
+     | .ok s => ∃ vars' jv', forLoop (forBody H F 0x69 grpOuterBody) ((List.range' a k).map intV) ⟨vars, st⟩
           = (.ok .next, ⟨vars', ⟨s.payload, s.env⟩⟩) ∧ getVar vars' 0x6f6666736574 = some (.int s.off)
           ∧ getVar vars' 0x696e646578 = some (.tuple (idx.map (fun (i : Nat) => (V.int (i : Int) : V AO)) ++ [jv']))
           ∧ ∀ x, x ≠ 0x6f6666736574 → x ≠ 0x696e646578 → x ≠ 0x6b657931 → x ≠ 0x69 → getVar vars' x = getVar vars x
-     | .error e => (forLoop (forBody (walkHost c cls id mode) F 0x69 grpOuterBody) ((List.range' a k).map intV) ⟨vars, st⟩).1
+     | .error e => (forLoop (forBody H F 0x69 grpOuterBody) ((List.range' a k).map intV) ⟨vars, st⟩).1
           = .error (.exc (excName e) 0)) := by
+  whs
   intro k
   induction k with
   | zero =>
@@ -523,10 +598,10 @@ theorem grp_outer_loop (F : Nat) (its : List Item) (hks : ∀ it ∈ its, itemAt
     exact ⟨vars, jv, rfl, gOff, gIdx, fun _ _ _ _ _ => rfl⟩
   | succ k ih =>
     intro a off jv vars st gSelf gD gOff gIdx gKw
-    have hb := grp_outer_body c cls id mode F its hks idx jv a off vars st gSelf gD gOff gIdx gKw
+    have hb := grp_outer_body c cls id mode H hH F its idx hks jv a off vars st gSelf gD gOff gIdx gKw
     rw [List.range'_succ, List.map_cons, forLoop, repeatN]
     simp only [intV] at hb ⊢
-    generalize forBody (walkHost c cls id mode) F 0x69 grpOuterBody (.int (a : Int)) ⟨vars, st⟩ = r0 at hb ⊢
+    generalize forBody H F 0x69 grpOuterBody (.int (a : Int)) ⟨vars, st⟩ = r0 at hb ⊢
     obtain ⟨r, ⟨vars1, st1⟩⟩ := r0
     cases hm : wItems c (idx ++ [a + 1]) its ⟨off, st.payload, st.env⟩ with
     | error e =>
@@ -568,10 +643,11 @@ theorem grp_body : fn_UBXMessage__set_attribute_group.body = [grpS1, grpS2, grpI
 def cfgvalB (cls id : Bytes) (mode : Nat) : Bool :=
   (cls == [0x06]) && (((id == [0x8b]) && ((mode : Int) == 0)) || ((id == [0x8a]) && ((mode : Int) == 1)))
 
-theorem grp_if_eq (F : Nat) (vars : List (Name × V AO)) (st : ASt) (gSelf : getVar vars 0x73656c66 = some (.host .self)) :
-    execS (walkHost c cls id mode) F grpIf ⟨vars, st⟩
-      = (if cfgvalB cls id mode then execB (walkHost c cls id mode) F grpThen ⟨vars, st⟩
-         else execB (walkHost c cls id mode) F grpElse ⟨vars, st⟩) := by
+theorem grp_if_eq (hH : WalkLike c cls id mode H) (F : Nat) (vars : List (Name × V AO)) (st : ASt) (gSelf : getVar vars 0x73656c66 = some (.host .self)) :
+    execS H F grpIf ⟨vars, st⟩
+      = (if cfgvalB cls id mode then execB H F grpThen ⟨vars, st⟩
+         else execB H F grpElse ⟨vars, st⟩) := by
+  whs
   simp only [grpIf, grpThen, grpElse, fn_UBXMessage__set_attribute_group, cfgvalB]
   rw [execS_if]
   rcases Bool.eq_false_or_eq_true (cls == [0x06]) with h1 | h1 <;> rcases Bool.eq_false_or_eq_true (id == [0x8b]) with h2 | h2
@@ -626,14 +702,16 @@ def calibTruthy (env : Env) : Bool :=
   | some v => v.truthy
   | none => false
 
-theorem esf_cond (F : Nat) (vars : List (Name × V AO)) (st : ASt) (gSelf : getVar vars 0x73656c66 = some (.host .self)) :
-    evalCond (walkHost c cls id mode) F esfCond ⟨vars, st⟩ = (.ok (esfB cls id mode), ⟨vars, st⟩) := by
+theorem esf_cond (hH : WalkLike c cls id mode H) (F : Nat) (vars : List (Name × V AO)) (st : ASt) (gSelf : getVar vars 0x73656c66 = some (.host .self)) :
+    evalCond H F esfCond ⟨vars, st⟩ = (.ok (esfB cls id mode), ⟨vars, st⟩) := by
+  whs
   simp only [esfCond, esfIf, gcE2, gcIf2, gcE1, grpCount, grpElse, grpIf, fn_UBXMessage__set_attribute_group, esfB]
   rcases Bool.eq_false_or_eq_true (cls == [0x10]) with h1 | h1 <;> rcases Bool.eq_false_or_eq_true (id == [0x02]) with h2 | h2
     <;> rcases Bool.eq_false_or_eq_true ((mode : Int) == 1) with h3 | h3
     <;> pysimp [gSelf, wh_attr, aAttr, wh_glob, aglob_SET, h1, h2, h3, Bool.false_eq_true, Bool.and_false, Bool.and_true, Bool.and_self]
 
-theorem truthy_native (v : PyVal) (hv : Native v) : truthy (walkHost c cls id mode) (V.ofPy v) = .ok v.truthy := by
+theorem truthy_native (hH : WalkLike c cls id mode H) (v : PyVal) (hv : Native v) : truthy H (V.ofPy v) = .ok v.truthy := by
+  whs
   cases v with
   | int i => by_cases h : i = 0 <;> simp [truthy, V.ofPy, PyVal.truthy, h]
   | bool b => simp [truthy, V.ofPy, PyVal.truthy]
@@ -644,16 +722,17 @@ theorem truthy_native (v : PyVal) (hv : Native v) : truthy (walkHost c cls id mo
   | ints _ => simp [Native] at hv
   | other => simp [Native] at hv
 
-theorem esf_if_eq (F : Nat) (vars : List (Name × V AO)) (st : ASt) (g : PyVal)
+theorem esf_if_eq (hH : WalkLike c cls id mode H) (F : Nat) (vars : List (Name × V AO)) (st : ASt) (g : PyVal)
     (gSelf : getVar vars 0x73656c66 = some (.host .self)) (gG : getVar vars 0x6773697a = some (V.ofPy g))
     (hN : esfB cls id mode = true → ∀ v, st.env.get? ⟨nmCalibTtagValid, []⟩ = some v → Native v) :
-    execS (walkHost c cls id mode) F esfIf ⟨vars, st⟩
+    execS H F esfIf ⟨vars, st⟩
       = (if esfB cls id mode && calibTruthy st.env then
            (match binOp .add (V.ofPy g) (.int 1) with
             | .ok r => (.ok .next, ⟨setVar vars 0x6773697a r, st⟩)
             | .error e => (.error e, ⟨vars, st⟩))
          else (.ok .next, ⟨vars, st⟩)) := by
-  rw [esfIf_def, execS_if, esf_cond c cls id mode F vars st gSelf]
+  whs
+  rw [esfIf_def, execS_if, esf_cond c cls id mode H hH F vars st gSelf]
   rcases Bool.eq_false_or_eq_true (esfB cls id mode) with hb | hb
   · simp only [hb, Bool.true_and]
     simp only [esfThen, esfIf, gcE2, gcIf2, gcE1, grpCount, grpElse, grpIf, fn_UBXMessage__set_attribute_group]
@@ -711,7 +790,14 @@ def GsizPost (res : R Nat) (vars : List (Name × V AO)) (st : ASt) (r : X AO (Fl
   | .error e => r.1 = .error (.exc (excName e) 0) ∨
       ∃ g, r = (.ok .next, ⟨setVar vars 0x6773697a g, st⟩) ∧ aCall c 0x72616e6765 [g] [] st = (.error (.exc (excName e) 0), st)
 
-theorem grp_count (F : Nat) (cnt : Count) (its : List Item) (hnamed : ∀ a, cnt = .named a → a ≠ sNone)
+/-- `self._calc_num_repeats(gdict, payload, offset, 0)` behaves as `calcNumRepeats` -/
+def CalcOK (H : Host AO ASt) (its : List Item) : Prop :=
+  ∀ (p : Bytes) (off : Nat) (st : ASt),
+    (match calcNumRepeats its p off with
+     | .ok k => H.mcall (.host .self) 0x5f63616c635f6e756d5f72657065617473 [.host (.dict its), .bytes p, .int off, .int 0] [] st = (.ok (.int k), st)
+     | .error e => (H.mcall (.host .self) 0x5f63616c635f6e756d5f72657065617473 [.host (.dict its), .bytes p, .int off, .int 0] [] st).1 = .error (.exc (excName e) 0))
+
+theorem grp_count (hH : WalkLike c cls id mode H) (F : Nat) (cnt : Count) (its : List Item) (hcalc : CalcOK H its) (hnamed : ∀ a, cnt = .named a → a ≠ sNone)
     (hesf : c.esfmeas = esfB cls id mode)
     (off : Nat) (vars : List (Name × V AO)) (st : ASt)
     (hnat : c.esfmeas = true → ∀ a, cnt = .named a →
@@ -719,7 +805,8 @@ theorem grp_count (F : Nat) (cnt : Count) (its : List Item) (hnamed : ∀ a, cnt
     (gSelf : getVar vars 0x73656c66 = some (.host .self)) (gA : getVar vars 0x616e616d = some (cntV cnt))
     (gD : getVar vars 0x6764696374 = some (.host (.dict its))) (gOff : getVar vars 0x6f6666736574 = some (.int off)) :
     GsizPost c (groupCount c cnt its ⟨off, st.payload, st.env⟩) vars st
-      (execS (walkHost c cls id mode) F grpCount ⟨vars, st⟩) := by
+      (execS H F grpCount ⟨vars, st⟩) := by
+  whs
   cases cnt with
   | fixed k =>
     simp only [grpCount, grpElse, grpIf, fn_UBXMessage__set_attribute_group]
@@ -729,11 +816,16 @@ theorem grp_count (F : Nat) (cnt : Count) (its : List Item) (hnamed : ∀ a, cnt
   | var =>
     simp only [grpCount, grpElse, grpIf, fn_UBXMessage__set_attribute_group]
     simp only [cntV] at gA
-    pysimp [gA, groupCount, sNone, beq_self_eq_true, gSelf, gD, gOff, wh_attr, aAttr, wh_mcall, aMcall, Int.natCast_nonneg, Int.toNat_natCast, builtinMethod]
-    cases calcNumRepeats its st.payload off with
-    | error e => simp [GsizPost, encR]
+    have hc := hcalc st.payload off st
+    cases hcn : calcNumRepeats its st.payload off with
+    | error e =>
+      rw [hcn] at hc
+      simp only at hc
+      pysimp [gA, groupCount, sNone, beq_self_eq_true, gSelf, gD, gOff, wh_attr, aAttr, hc, hcn, builtinMethod, GsizPost]
     | ok k =>
-      simp only [encR, GsizPost]
+      rw [hcn] at hc
+      simp only at hc
+      pysimp [gA, groupCount, sNone, beq_self_eq_true, gSelf, gD, gOff, wh_attr, aAttr, hc, hcn, builtinMethod, GsizPost]
       exact ⟨_, rfl, by simp [aCall, List.range_eq_range', intV]⟩
   | named a =>
     have ha : a ≠ sNone := hnamed a rfl
@@ -753,7 +845,7 @@ theorem grp_count (F : Nat) (cnt : Count) (its : List Item) (hnamed : ∀ a, cnt
       simp [GsizPost, excName]
     | some g =>
       pysimp [gA, gSelf, wh_call, aCall, anameOfA, hg]
-      rw [esf_if_eq c cls id mode F _ st g (by rw [getVar_setVar_ne _ _ _ _ (by decide)]; exact gSelf) (by rw [getVar_setVar_same])
+      rw [esf_if_eq c cls id mode H hH F _ st g (by rw [getVar_setVar_ne _ _ _ _ (by decide)]; exact gSelf) (by rw [getVar_setVar_same])
         (fun hb v hv => (hnat (by rw [hesf]; exact hb) a rfl).1 v hv)]
       rw [hesf]
       rcases Bool.eq_false_or_eq_true (esfB cls id mode && calibTruthy st.env) with hb | hb
@@ -784,26 +876,27 @@ theorem grp_count (F : Nat) (cnt : Count) (its : List Item) (hnamed : ∀ a, cnt
           simp only [GsizPost]
           exact Or.inr ⟨_, rfl, by simpa [excName] using hr⟩
 
-theorem grp_tail (F : Nat) (idx : List Nat) (jv : V AO) (o : Int) (vars : List (Name × V AO)) (st : ASt)
+theorem grp_tail (hH : WalkLike c cls id mode H) (F : Nat) (idx : List Nat) (jv : V AO) (o : Int) (vars : List (Name × V AO)) (st : ASt)
     (gOff : getVar vars 0x6f6666736574 = some (.int o))
     (gIdx : getVar vars 0x696e646578 = some (.tuple (idx.map (fun (i : Nat) => (V.int (i : Int) : V AO)) ++ [jv]))) :
-    retOf (execB (walkHost c cls id mode) F [grpS4, grpS5] ⟨vars, st⟩) = (.ok (.tuple [.int o, idxT idx]), st) := by
+    retOf (execB H F [grpS4, grpS5] ⟨vars, st⟩) = (.ok (.tuple [.int o, idxT idx]), st) := by
+  whs
   have hne : (List.map (fun (i : Nat) => (V.int (i : Int) : V AO)) idx ++ [jv]).isEmpty = false := by simp
   simp only [grpS4, grpS5, fn_UBXMessage__set_attribute_group]
   pystep [gIdx, hne, Bool.false_eq_true, List.dropLast_concat]
   pysimp [gOff, idxT]
 
-theorem set_attribute_group_eq (F : Nat) (cnt : Count) (its : List Item) (hks : ∀ it ∈ its, itemAt its (Item.key it) = some it)
+theorem set_attribute_group_eq (hH : WalkLike c cls id mode H) (F : Nat) (cnt : Count) (its : List Item) (idx : List Nat)
+    (hks : ItemsOK c H idx its) (hcalc : CalcOK H its)
     (hnamed : ∀ a, cnt = .named a → a ≠ sNone) (hcfg : c.cfgval = cfgvalB cls id mode) (hesf : c.esfmeas = esfB cls id mode)
-    (off : Nat) (idx : List Nat) (st : ASt)
+    (off : Nat) (st : ASt)
     (hnat : c.esfmeas = true → ∀ a, cnt = .named a →
       (∀ v, st.env.get? ⟨nmCalibTtagValid, []⟩ = some v → Native v) ∧ (∀ g, st.env.get? ⟨a, []⟩ = some g → Native g)) :
-    (match wGroup c idx cnt its ⟨off, st.payload, st.env⟩ with
-     | .ok s => runFn (walkHost c cls id mode) F fn_UBXMessage__set_attribute_group
-          [.host .self, .tuple [cntV cnt, .host (.dict its)], .int off, idxT idx, .host .kwargs] st
-          = (.ok (.tuple [.int s.off, idxT idx]), ⟨s.payload, s.env⟩)
-     | .error e => (runFn (walkHost c cls id mode) F fn_UBXMessage__set_attribute_group
-          [.host .self, .tuple [cntV cnt, .host (.dict its)], .int off, idxT idx, .host .kwargs] st).1 = .error (.exc (excName e) 0)) := by
+    SpecW idx (runFn H F fn_UBXMessage__set_attribute_group
+          [.host .self, .tuple [cntV cnt, .host (.dict its)], .int off, idxT idx, .host .kwargs] st)
+      (wGroup c idx cnt its ⟨off, st.payload, st.env⟩) := by
+  simp only [SpecW]
+  whs
   have fr : ∀ (vs : List (Name × V AO)) (x y : Name) (v : V AO), ¬ x = y → getVar (setVar vs y v) x = getVar vs x :=
     fun vs x y v h => getVar_setVar_ne vs y x v (fun e => h e.symm)
   simp only [runFn, grp_body, wGroup, wItem]
@@ -815,11 +908,11 @@ theorem set_attribute_group_eq (F : Nat) (cnt : Count) (its : List Item) (hks : 
   rw [execB_cons]
   simp only [grpS2, fn_UBXMessage__set_attribute_group]
   pysimp [bindT]
-  rw [execB_cons, grp_if_eq c cls id mode F _ st (by pysimp), hcfg]
+  rw [execB_cons, grp_if_eq c cls id mode H hH F _ st (by pysimp), hcfg]
   rcases Bool.eq_false_or_eq_true (cfgvalB cls id mode) with hb | hb
   · simp only [hb, ↓reduceIte]
     simp only [grpThen, grpIf, fn_UBXMessage__set_attribute_group]
-    pysimp [wh_mcall, aMcall, Int.natCast_nonneg, Int.toNat_natCast]
+    pysimp [wh_mkw, wh_mdict, wh_mbf, wh_mcfg, aMcall, Int.natCast_nonneg, Int.toNat_natCast]
     simp only [wCfgVal]
     cases c.hasPayload
     · simp [excName]
@@ -828,7 +921,7 @@ theorem set_attribute_group_eq (F : Nat) (cnt : Count) (its : List Item) (hks : 
       | error e => simp
       | ok env' =>
         simp only
-        have := grp_tail c cls id mode F idx (.int 0) off
+        have := grp_tail c cls id mode H hH F idx (.int 0) off
           [(1936026726, V.host AO.self), (1633969510, V.tuple [cntV cnt, V.host (AO.dict its)]),
               (122485596185972, V.int ↑off), (452823639416, V.tuple (List.map (fun (i : Nat) => (V.int (i : Int) : V AO)) idx ++ [V.int 0])),
               (118160480167795, V.host AO.kwargs), (1634623853, cntV cnt), (444066259828, V.host (AO.dict its))]
@@ -838,16 +931,16 @@ theorem set_attribute_group_eq (F : Nat) (cnt : Count) (its : List Item) (hks : 
         rfl
   · simp only [hb, Bool.false_eq_true, ↓reduceIte]
     rw [grp_else, execB_cons]
-    have hc := grp_count c cls id mode F cnt its hnamed hesf off
+    have hc := grp_count c cls id mode H hH F cnt its hcalc hnamed hesf off
       [(1936026726, V.host AO.self), (1633969510, V.tuple [cntV cnt, V.host (AO.dict its)]),
         (122485596185972, V.int ↑off), (452823639416, V.tuple (List.map (fun (i : Nat) => (V.int (i : Int) : V AO)) idx ++ [V.int 0])),
         (118160480167795, V.host AO.kwargs), (1634623853, cntV cnt), (444066259828, V.host (AO.dict its))] st hnat
       (by pysimp) (by pysimp) (by pysimp) (by pysimp)
-    generalize execS (walkHost c cls id mode) F grpCount _ = r0 at hc ⊢
+    generalize execS H F grpCount _ = r0 at hc ⊢
     have hOuterOk : ∀ (vars : List (Name × V AO)) (g : V AO) (l : List (V AO)), getVar vars 0x6773697a = some g →
         aCall c 0x72616e6765 [g] [] st = (.ok (.tuple l), st) →
-        execS (walkHost c cls id mode) F grpOuter ⟨vars, st⟩
-          = forLoop (forBody (walkHost c cls id mode) F 0x69 grpOuterBody) l ⟨vars, st⟩ := by
+        execS H F grpOuter ⟨vars, st⟩
+          = forLoop (forBody H F 0x69 grpOuterBody) l ⟨vars, st⟩ := by
       intro vars g l hg hr
       simp only [grpOuter, grpOuterBody, grpElse, grpIf, fn_UBXMessage__set_attribute_group]
       rw [execS_for]
@@ -856,7 +949,7 @@ theorem set_attribute_group_eq (F : Nat) (cnt : Count) (its : List Item) (hks : 
         ↓reduceIte, or_self, wh_call, List.zip_nil_right, hr, iterOf]
     have hOuterErr : ∀ (vars : List (Name × V AO)) (g : V AO) (e : V AO), getVar vars 0x6773697a = some g →
         aCall c 0x72616e6765 [g] [] st = (.error e, st) →
-        execS (walkHost c cls id mode) F grpOuter ⟨vars, st⟩ = (.error e, ⟨vars, st⟩) := by
+        execS H F grpOuter ⟨vars, st⟩ = (.error e, ⟨vars, st⟩) := by
       intro vars g e hg hr
       simp only [grpOuter, grpOuterBody, grpElse, grpIf, fn_UBXMessage__set_attribute_group]
       rw [execS_for]
@@ -882,7 +975,7 @@ theorem set_attribute_group_eq (F : Nat) (cnt : Count) (its : List Item) (hks : 
       subst hr0
       simp only
       rw [execB_one, hOuterOk _ g _ (by rw [getVar_setVar_same]) hrange]
-      have hl := grp_outer_loop c cls id mode F its hks idx k 0 off (.int 0)
+      have hl := grp_outer_loop c cls id mode H hH F its idx hks k 0 off (.int 0)
         (setVar [(1936026726, V.host AO.self), (1633969510, V.tuple [cntV cnt, V.host (AO.dict its)]),
           (122485596185972, V.int ↑off), (452823639416, V.tuple (List.map (fun (i : Nat) => (V.int (i : Int) : V AO)) idx ++ [V.int 0])),
           (118160480167795, V.host AO.kwargs), (1634623853, cntV cnt), (444066259828, V.host (AO.dict its))] 0x6773697a g) st
@@ -904,7 +997,7 @@ theorem set_attribute_group_eq (F : Nat) (cnt : Count) (its : List Item) (hks : 
         simp only
         rw [g1]
         simp only
-        have := grp_tail c cls id mode F idx jv' s.off vars' ⟨s.payload, s.env⟩ g2 g3
+        have := grp_tail c cls id mode H hH F idx jv' s.off vars' ⟨s.payload, s.env⟩ g2 g3
         simp only [retOf] at this
         rw [this]
         rfl
@@ -923,25 +1016,27 @@ def sgSfxBody : List S := match sgS 3 with
   | .for_ _ _ b => b
   | _ => []
 
-theorem sg_sfx_body (F : Nat) (key : Name) (p : List Nat) (i : Nat) (hi : 0 < i) (vars : List (Name × V AO)) (st : ASt)
+theorem sg_sfx_body (hH : WalkLike c cls id mode H) (F : Nat) (key : Name) (p : List Nat) (i : Nat) (hi : 0 < i) (vars : List (Name × V AO)) (st : ASt)
     (hk : getVar vars 0x616e616d69 = some (nameVA key p)) :
-    forBody (walkHost c cls id mode) F 0x69 sgSfxBody (.int i) ⟨vars, st⟩
+    forBody H F 0x69 sgSfxBody (.int i) ⟨vars, st⟩
       = (.ok .next, ⟨setVar (setVar vars 0x69 (.int i)) 0x616e616d69 (nameVA key (p ++ [i])), st⟩) := by
+  whs
   simp only [forBody, sgSfxBody, sgS, fn_UBXMessage__set_attribute_single, List.getD_cons_succ, List.getD_cons_zero]
   have hpos : decide ((i : Int) > 0) = true := by simp; omega
   pysimp [hpos, wh_call, aCall, hk, anameOfA_nameVA, nameVA_snoc, Int.natCast_nonneg, Int.toNat_natCast]
 
-theorem sg_sfx_loop (F : Nat) (key : Name) (idx : List Nat) (hidx : ∀ i ∈ idx, 0 < i) : ∀ (p : List Nat) (vars : List (Name × V AO)) (st : ASt),
+theorem sg_sfx_loop (hH : WalkLike c cls id mode H) (F : Nat) (key : Name) (idx : List Nat) (hidx : ∀ i ∈ idx, 0 < i) : ∀ (p : List Nat) (vars : List (Name × V AO)) (st : ASt),
     getVar vars 0x616e616d69 = some (nameVA key p) →
-    ∃ vars', forLoop (forBody (walkHost c cls id mode) F 0x69 sgSfxBody) (idx.map (fun (i : Nat) => (V.int (i : Int) : V AO))) ⟨vars, st⟩ = (.ok .next, ⟨vars', st⟩)
+    ∃ vars', forLoop (forBody H F 0x69 sgSfxBody) (idx.map (fun (i : Nat) => (V.int (i : Int) : V AO))) ⟨vars, st⟩ = (.ok .next, ⟨vars', st⟩)
       ∧ getVar vars' 0x616e616d69 = some (nameVA key (p ++ idx))
       ∧ ∀ x, x ≠ 0x616e616d69 → x ≠ 0x69 → getVar vars' x = getVar vars x := by
+  whs
   induction idx with
   | nil => intro p vars st hk; exact ⟨vars, rfl, by simpa using hk, fun _ _ _ => rfl⟩
   | cons i rest ih =>
     intro p vars st hk
     have hi : 0 < i := hidx i (by simp)
-    rw [List.map_cons, forLoop, sg_sfx_body c cls id mode F key p i hi vars st hk]
+    rw [List.map_cons, forLoop, sg_sfx_body c cls id mode H hH F key p i hi vars st hk]
     simp only
     obtain ⟨vars', h1, h2, h3⟩ := ih (fun j hj => hidx j (by simp [hj])) (p ++ [i])
       (setVar (setVar vars 0x69 (.int i)) 0x616e616d69 (nameVA key (p ++ [i]))) st (by rw [getVar_setVar_same])
@@ -1000,13 +1095,14 @@ theorem toPyA_ofPy (v : PyVal) : toPyA (V.ofPy v) = v := by cases v <;> rfl
 
 theorem aglob_SCALROUND : aGlob 0x5343414c524f554e44 = some (.int 12) := rfl
 
-theorem sg_store (F : Nat) (n : Name) (idx : List Nat) (v : PyVal) (off a : Int) (vars : List (Name × V AO)) (st : ASt)
+theorem sg_store (hH : WalkLike c cls id mode H) (F : Nat) (n : Name) (idx : List Nat) (v : PyVal) (off a : Int) (vars : List (Name × V AO)) (st : ASt)
     (gSelf : getVar vars 0x73656c66 = some (.host .self)) (gN : getVar vars 0x616e616d69 = some (nameVA n idx))
     (gV : getVar vars 0x76616c = some (V.ofPy v)) (gOff : getVar vars 0x6f6666736574 = some (.int off))
     (gA : getVar vars 0x6173697a = some (.int a)) :
     (match storeVal c idx n st.env v with
-     | .ok env' => retOf (execB (walkHost c cls id mode) F sgT67 ⟨vars, st⟩) = (.ok (.int (off + a)), ⟨st.payload, env'⟩)
-     | .error e => (retOf (execB (walkHost c cls id mode) F sgT67 ⟨vars, st⟩)).1 = .error (.exc (excName e) 0)) := by
+     | .ok env' => retOf (execB H F sgT67 ⟨vars, st⟩) = (.ok (.int (off + a)), ⟨st.payload, env'⟩)
+     | .error e => (retOf (execB H F sgT67 ⟨vars, st⟩)).1 = .error (.exc (excName e) 0)) := by
+  whs
   simp only [sgT67, sgS, fn_UBXMessage__set_attribute_single, List.getD_cons_succ, List.getD_cons_zero, storeVal]
   cases idx with
   | nil =>
@@ -1092,12 +1188,13 @@ def SgPost5 (res : R (PyVal × Bytes)) (vars : List (Name × V AO)) (st : ASt) (
       ∧ ∀ x, x ≠ 0x76616c → x ≠ 0x76616c62 → getVar r.2.vars x = getVar vars x
   | .error e => r.1 = .error (.exc (excName e) 0)
 
-theorem sg_stage5 (F : Nat) (n : Name) (idx : List Nat) (ty : Ty) (sc : Scale) (off k : Nat) (vars : List (Name × V AO)) (st : ASt)
+theorem sg_stage5 (hH : WalkLike c cls id mode H) (F : Nat) (n : Name) (idx : List Nat) (ty : Ty) (sc : Scale) (off k : Nat) (vars : List (Name × V AO)) (st : ASt)
     (gSelf : getVar vars 0x73656c66 = some (.host .self)) (gN : getVar vars 0x616e616d69 = some (nameVA n idx))
     (gD : getVar vars 0x61646566 = some (.host (.ty ty))) (gR : getVar vars 0x61726573 = some (aresV sc))
     (gOff : getVar vars 0x6f6666736574 = some (.int off)) (gA : getVar vars 0x6173697a = some (.int k))
     (gKw : getVar vars 0x6b7761726773 = some (.host .kwargs)) :
-    SgPost5 (singleVal c idx n ty sc st.payload off k) vars st (execS (walkHost c cls id mode) F (sgS 5) ⟨vars, st⟩) := by
+    SgPost5 (singleVal c idx n ty sc st.payload off k) vars st (execS H F (sgS 5) ⟨vars, st⟩) := by
+  whs
   simp only [sgS, fn_UBXMessage__set_attribute_single, List.getD_cons_succ, List.getD_cons_zero, singleVal]
   have fr : ∀ (vs : List (Name × V AO)) (x y : Name) (v : V AO), ¬ x = y → getVar (setVar vs y v) x = getVar vs x :=
     fun vs x y v h => getVar_setVar_ne vs y x v (fun e => h e.symm)
@@ -1110,7 +1207,7 @@ theorem sg_stage5 (F : Nat) (n : Name) (idx : List Nat) (ty : Ty) (sc : Scale) (
     rw [execS_if]
     pysimp [gKw, wh_contains, aContains, hp, Bool.false_eq_true]
     rw [execB_cons]
-    pysimp [gKw, gN, gD, wh_call, aCall, wh_mcall, aMcall, anameOfA_nameVA, builtinMethod]
+    pysimp [gKw, gN, gD, wh_call, aCall, wh_mkw, wh_mdict, wh_mbf, wh_mcfg, aMcall, anameOfA_nameVA, builtinMethod]
     cases nomval ty with
     | error e => simp [SgPost5, encR]
     | ok nv =>
@@ -1233,12 +1330,13 @@ theorem wSingle_eq (n : Name) (idx : List Nat) (ty : Ty) (sc : Scale) (ws : WSta
 
 theorem aglob_CH : aGlob 0x4348 = some (.host (.ty .ch)) := rfl
 
-theorem sg_stage4 (F : Nat) (ty : Ty) (vars : List (Name × V AO)) (st : ASt)
+theorem sg_stage4 (hH : WalkLike c cls id mode H) (F : Nat) (ty : Ty) (vars : List (Name × V AO)) (st : ASt)
     (gSelf : getVar vars 0x73656c66 = some (.host .self)) (gD : getVar vars 0x61646566 = some (.host (.ty ty))) :
-    execS (walkHost c cls id mode) F (sgS 4) ⟨vars, st⟩
+    execS H F (sgS 4) ⟨vars, st⟩
       = (match fieldSize ty st.payload with
          | .ok k => (.ok .next, ⟨setVar vars 0x6173697a (.int k), st⟩)
          | .error e => (.error (.exc (excName e) 0), ⟨vars, st⟩)) := by
+  whs
   simp only [sgS, fn_UBXMessage__set_attribute_single, List.getD_cons_succ, List.getD_cons_zero, fieldSize]
   cases ty with
   | ch => pysimp [gD, gSelf, wh_glob, aglob_CH, wh_eq, aEq, wh_attr, aAttr, beq_self_eq_true]
@@ -1250,22 +1348,23 @@ theorem sg_stage4 (F : Nat) (ty : Ty) (vars : List (Name × V AO)) (st : ASt)
     pysimp [gD, gSelf, wh_glob, aglob_CH, wh_eq, aEq, hne, Bool.false_eq_true, wh_call, aCall, attsiz, encR]
 theorem sgS3_def : sgS 3 = .for_ 0x69 (.var 0x696e646578) sgSfxBody := rfl
 
-theorem sg_rest (F : Nat) (n : Name) (idx : List Nat) (hidx : ∀ i ∈ idx, 0 < i) (ty : Ty) (sc : Scale) (off : Nat)
+theorem sg_rest (hH : WalkLike c cls id mode H) (F : Nat) (n : Name) (idx : List Nat) (hidx : ∀ i ∈ idx, 0 < i) (ty : Ty) (sc : Scale) (off : Nat)
     (vars : List (Name × V AO)) (st : ASt)
     (gSelf : getVar vars 0x73656c66 = some (.host .self)) (gN : getVar vars 0x616e616d69 = some (.str n))
     (gD : getVar vars 0x61646566 = some (.host (.ty ty))) (gR : getVar vars 0x61726573 = some (aresV sc))
     (gOff : getVar vars 0x6f6666736574 = some (.int off)) (gIdx : getVar vars 0x696e646578 = some (idxT idx))
     (gKw : getVar vars 0x6b7761726773 = some (.host .kwargs)) :
     (match wSingle c idx n ty sc ⟨off, st.payload, st.env⟩ with
-     | .ok s => retOf (execB (walkHost c cls id mode) F (sgS 3 :: sgS 4 :: sgS 5 :: sgT67) ⟨vars, st⟩)
+     | .ok s => retOf (execB H F (sgS 3 :: sgS 4 :: sgS 5 :: sgT67) ⟨vars, st⟩)
           = (.ok (.int s.off), ⟨s.payload, s.env⟩)
-     | .error e => (retOf (execB (walkHost c cls id mode) F (sgS 3 :: sgS 4 :: sgS 5 :: sgT67) ⟨vars, st⟩)).1
+     | .error e => (retOf (execB H F (sgS 3 :: sgS 4 :: sgS 5 :: sgT67) ⟨vars, st⟩)).1
           = .error (.exc (excName e) 0)) := by
+  whs
   rw [wSingle_eq]
   simp only
   rw [execB_cons, sgS3_def, execS_for]
   simp only [evalE, gIdx, idxT, iterOf]
-  obtain ⟨vars1, hl, gN1, fr1⟩ := sg_sfx_loop c cls id mode F n idx hidx [] vars st (by simpa [nameVA] using gN)
+  obtain ⟨vars1, hl, gN1, fr1⟩ := sg_sfx_loop c cls id mode H hH F n idx hidx [] vars st (by simpa [nameVA] using gN)
   rw [hl]
   simp only [List.nil_append] at gN1
   have gSelf1 : getVar vars1 0x73656c66 = some (.host .self) := by rw [fr1 _ (by decide) (by decide)]; exact gSelf
@@ -1274,7 +1373,7 @@ theorem sg_rest (F : Nat) (n : Name) (idx : List Nat) (hidx : ∀ i ∈ idx, 0 <
   have gOff1 : getVar vars1 0x6f6666736574 = some (.int off) := by rw [fr1 _ (by decide) (by decide)]; exact gOff
   have gKw1 : getVar vars1 0x6b7761726773 = some (.host .kwargs) := by rw [fr1 _ (by decide) (by decide)]; exact gKw
   simp only
-  rw [execB_cons, sg_stage4 c cls id mode F ty vars1 st gSelf1 gD1]
+  rw [execB_cons, sg_stage4 c cls id mode H hH F ty vars1 st gSelf1 gD1]
   cases hfs : fieldSize ty st.payload with
   | error e => simp [retOf]
   | ok k =>
@@ -1282,12 +1381,12 @@ theorem sg_rest (F : Nat) (n : Name) (idx : List Nat) (hidx : ∀ i ∈ idx, 0 <
     rw [execB_cons]
     have fr : ∀ (vs : List (Name × V AO)) (x y : Name) (v : V AO), ¬ x = y → getVar (setVar vs y v) x = getVar vs x :=
       fun vs x y v h => getVar_setVar_ne vs y x v (fun e => h e.symm)
-    have h5 := sg_stage5 c cls id mode F n idx ty sc off k (setVar vars1 0x6173697a (.int k)) st
+    have h5 := sg_stage5 c cls id mode H hH F n idx ty sc off k (setVar vars1 0x6173697a (.int k)) st
       (by rw [fr _ _ _ _ (by decide)]; exact gSelf1) (by rw [fr _ _ _ _ (by decide)]; exact gN1)
       (by rw [fr _ _ _ _ (by decide)]; exact gD1) (by rw [fr _ _ _ _ (by decide)]; exact gR1)
       (by rw [fr _ _ _ _ (by decide)]; exact gOff1) (by rw [getVar_setVar_same])
       (by rw [fr _ _ _ _ (by decide)]; exact gKw1)
-    generalize execS (walkHost c cls id mode) F (sgS 5) _ = r5 at h5 ⊢
+    generalize execS H F (sgS 5) _ = r5 at h5 ⊢
     obtain ⟨r, ⟨vars2, st2⟩⟩ := r5
     cases hsv : singleVal c idx n ty sc st.payload off k with
     | error e =>
@@ -1301,7 +1400,7 @@ theorem sg_rest (F : Nat) (n : Name) (idx : List Nat) (hidx : ∀ i ∈ idx, 0 <
       obtain ⟨h1, h2, h3, h4⟩ := h5
       subst h1; subst h2
       simp only
-      have hs := sg_store c cls id mode F n idx vp.1 off k vars2 ⟨vp.2, st.env⟩
+      have hs := sg_store c cls id mode H hH F n idx vp.1 off k vars2 ⟨vp.2, st.env⟩
         (by rw [h4 _ (by decide) (by decide), fr _ _ _ _ (by decide)]; exact gSelf1)
         (by rw [h4 _ (by decide) (by decide), fr _ _ _ _ (by decide)]; exact gN1) h3
         (by rw [h4 _ (by decide) (by decide), fr _ _ _ _ (by decide)]; exact gOff1)
@@ -1315,21 +1414,22 @@ theorem sg_rest (F : Nat) (n : Name) (idx : List Nat) (hidx : ∀ i ∈ idx, 0 <
         simp [Int.natCast_add]
 
 /-- `_set_attribute_single`, as written, is the model's `wSingle` -/
-theorem set_attribute_single_eq (F : Nat) (n : Name) (ty : Ty) (sc : Scale) (off : Nat) (idx : List Nat) (hidx : ∀ i ∈ idx, 0 < i)
+theorem set_attribute_single_eq (hH : WalkLike c cls id mode H) (F : Nat) (n : Name) (ty : Ty) (sc : Scale) (off : Nat) (idx : List Nat) (hidx : ∀ i ∈ idx, 0 < i)
     (st : ASt) :
     (match wSingle c idx n ty sc ⟨off, st.payload, st.env⟩ with
-     | .ok s => runFn (walkHost c cls id mode) F fn_UBXMessage__set_attribute_single
+     | .ok s => runFn H F fn_UBXMessage__set_attribute_single
           [.host .self, .str n, defV (.attr n ty sc), .int off, idxT idx, .host .kwargs] st = (.ok (.int s.off), ⟨s.payload, s.env⟩)
-     | .error e => (runFn (walkHost c cls id mode) F fn_UBXMessage__set_attribute_single
+     | .error e => (runFn H F fn_UBXMessage__set_attribute_single
           [.host .self, .str n, defV (.attr n ty sc), .int off, idxT idx, .host .kwargs] st).1 = .error (.exc (excName e) 0)) := by
+  whs
   have hp : fn_UBXMessage__set_attribute_single.params = [0x73656c66, 0x616e616d, 0x61646566, 0x6f6666736574, 0x696e646578, 0x6b7761726773] := rfl
   have hb : fn_UBXMessage__set_attribute_single.body = sgS 0 :: sgS 1 :: sgS 2 :: sgS 3 :: sgS 4 :: sgS 5 :: sgT67 := rfl
   simp only [runFn, hp, hb, List.zip_cons_cons, List.zip_nil_right]
   have h012 : ∀ (dv : V AO), (dv = .host (.ty ty) ∧ sc = .one) ∨ (dv = .host (.scaled ty sc) ∧ sc ≠ .one) →
-      ∃ vars, execB (walkHost c cls id mode) F (sgS 0 :: sgS 1 :: sgS 2 :: sgS 3 :: sgS 4 :: sgS 5 :: sgT67)
+      ∃ vars, execB H F (sgS 0 :: sgS 1 :: sgS 2 :: sgS 3 :: sgS 4 :: sgS 5 :: sgT67)
           ⟨[(0x73656c66, .host .self), (0x616e616d, .str n), (0x61646566, dv), (0x6f6666736574, .int off), (0x696e646578, idxT idx),
             (0x6b7761726773, .host .kwargs)], st⟩
-        = execB (walkHost c cls id mode) F (sgS 3 :: sgS 4 :: sgS 5 :: sgT67) ⟨vars, st⟩
+        = execB H F (sgS 3 :: sgS 4 :: sgS 5 :: sgT67) ⟨vars, st⟩
         ∧ getVar vars 0x73656c66 = some (.host .self) ∧ getVar vars 0x616e616d69 = some (.str n)
         ∧ getVar vars 0x61646566 = some (.host (.ty ty)) ∧ getVar vars 0x61726573 = some (aresV sc)
         ∧ getVar vars 0x6f6666736574 = some (.int off) ∧ getVar vars 0x696e646578 = some (idxT idx)
@@ -1367,6 +1467,6 @@ theorem set_attribute_single_eq (F : Nat) (n : Name) (ty : Ty) (sc : Scale) (off
     | int m => exact Or.inr ⟨rfl, by simp⟩
     | flt b => exact Or.inr ⟨rfl, by simp⟩)
   rw [he]
-  exact sg_rest c cls id mode F n idx hidx ty sc off vars st g1 g2 g3 g4 g5 g6 g7
+  exact sg_rest c cls id mode H hH F n idx hidx ty sc off vars st g1 g2 g3 g4 g5 g6 g7
 
 end Ubx.Py
